@@ -87,3 +87,22 @@ Proof.
   destruct (rendered_column p r B A Hfit Hval) as (Hwf & Hn & Hdig & Hmax & _).
   now apply (c04_valid_reader_tamper_text_full s le g0 site p (render (p_layout p) r) j d).
 Qed.
+
+(* ---- the phase-6 lemma exactly as it was stated: no condition on a header but 53 <= col ---------- *)
+
+(* BatchHeader.Parse cuts the SEC code at characters [50, 53), rune indexed, layout well formed *)
+Definition bh_sec : cut := match find_key (l_cuts L_BatchHeader) "StandardEntryClassCode" with Some c => c | None => mkcut 0 0 "" [] end.
+
+Lemma bh_sec_cut : layout_ok L_BatchHeader = true /\ l_ix L_BatchHeader = IRune
+  /\ find_key (l_cuts L_BatchHeader) "StandardEntryClassCode" = Some bh_sec /\ (c_lo bh_sec, c_hi bh_sec) = (50, 53).
+Proof. vm_compute. repeat split; reflexivity. Qed.
+
+Theorem c04_tamper_keeps_general s site col d l : site_line s site = Some l ->
+  1 <= col -> is_digit d = true ->
+  (forall bi, site = SBatchHdr bi -> 53 <= col) ->
+  file_typed s = true -> utf8_records s -> bridge_okb LT s = true ->
+  file_typed (tamper s site col d) = true /\ utf8_records (tamper s site col d) /\ bridge_okb LT (tamper s site col d) = true.
+Proof.
+  destruct bh_sec_cut as (Hok & Hix & Hsec & Hcols).
+  apply (tamper_keeps_general Hok Hix bh_sec Hsec). pose proof (f_equal snd Hcols) as Hhi. cbn [snd] in Hhi. rewrite Hhi. apply Nat.le_refl.
+Qed.
